@@ -857,7 +857,7 @@ package task
 //@   site templater.ReplaceVars#3 ghost lastRV := result
 //@   site templater.ReplaceVars#3 ghost rvDirty := false
 //@   site (*Vars).Merge#3 requires arg0 == new.Env && arg1 == lastRV && !rvDirty                               [C10]
-//@   site append requires fresh(arg1[0])                                                                       [C11,C18,C14,C06,C19]
+//@   site append requires fresh(arg1[0])                                                                       [C11,C18,C14,C06,C19,C02]
 // every command put into the compiled task (one per loop item, deferred, plain) keeps the attributes that
 // decide how its failure and its output are treated
 //@   site append#1 requires arg1[0].IgnoreError == cmd.IgnoreError && arg1[0].Silent == cmd.Silent && arg1[0].Defer == cmd.Defer   [C03,C02,C14]
